@@ -107,7 +107,7 @@ def explore_config(cfg, acc, tier):
     seen_sizes, seen_vars = set(), set()
     seed_arg = 0 if (cfg["K"] + cfg["p"]) % 2 else None
     fails = []
-    stats = {"exec": 0}
+    stats = {"exec": 0, "unmodelled": 0}
 
     def run(prefix):
         r, tp = execute(cfg, prefix, seed_arg)
@@ -117,6 +117,7 @@ def explore_config(cfg, acc, tier):
         acc.transitions += len(tp.points)
         if tp.unmodelled:
             acc.undecided += 1
+            stats["unmodelled"] += 1
         else:
             f = judge(cfg, r)
             for sig, msg in f:
@@ -142,7 +143,9 @@ def explore_config(cfg, acc, tier):
         mode = "deviation<=%d%s" % (bound, "(capped)" if capped2 else "")
     acc.extra["configs_" + mode] += 1
     # across executions: every size of the range and every variable occurs
-    if not expected_error(cfg) and cfg["K"] >= 1 and not fails:
+    # (only when the answer tree was fully modelled; a deviation-bounded walk is enough here because every size / variable is
+    # one deviation away for any sequential sampler - if the implementation draws differently the seed-range stage decides)
+    if not expected_error(cfg) and cfg["K"] >= 1 and not fails and not stats["unmodelled"] and mode == "complete":
         lo, hi = (cfg["size"] if isinstance(cfg["size"], list) else (cfg["size"], cfg["size"]))
         if seen_sizes != set(range(lo, hi + 1)):
             fails.append(("config", {"cfg": cfg}, "size-never-drawn", "intervention_targets(p=%d,K=%d,size=%r,replace=%s): over all RNG answers the sizes seen are %s, not every size in [%d,%d]" % (
@@ -153,8 +156,41 @@ def explore_config(cfg, acc, tier):
     return fails, mode
 
 
+def seed_range(cfg, acc, nseeds=300):
+    """every seed in [0, nseeds) of the real generator: per-draw oracle + every size of the range and every variable occurs
+    (failure probability under the specified law < 1e-25 for p <= 5)."""
+    sizes, variables = set(), set()
+    for s in range(nseeds):
+        try:
+            r = ("ok", gen.intervention_targets(cfg["p"], cfg["K"], size_arg(cfg), replace=cfg["replace"], random_state=s))
+        except Exception as e:
+            r = ("exc", type(e).__name__, repr(e)[:200])
+        acc.states += 1
+        acc.traces += 1
+        acc.transitions += 1
+        acc.extra["seed_range_executions"] += 1
+        f = judge(cfg, r)
+        for sig, msg in f:
+            acc.fail("real", {"cfg": cfg, "seed": s}, sig, msg + " [real numpy, random_state=%d]" % s)
+        if f or r[0] != "ok":
+            return
+        for iv in r[1]:
+            sizes.add(len(iv))
+            variables.update(int(v) for v in iv)
+    lo, hi = (cfg["size"] if isinstance(cfg["size"], list) else (cfg["size"], cfg["size"]))
+    if cfg["K"] >= 1:
+        if sizes != set(range(lo, hi + 1)):
+            acc.fail("real-agg", {"cfg": cfg, "nseeds": nseeds}, "size-never-drawn", "intervention_targets(p=%d,K=%d,size=%r,replace=%s): over random_state 0..%d the sizes seen are %s, not every size in [%d,%d]" % (
+                cfg["p"], cfg["K"], size_arg(cfg), cfg["replace"], nseeds - 1, sorted(sizes), lo, hi))
+        if hi >= 1 and variables != set(range(cfg["p"])):
+            acc.fail("real-agg", {"cfg": cfg, "nseeds": nseeds}, "variable-never-drawn", "intervention_targets(p=%d,K=%d,size=%r,replace=%s): over random_state 0..%d only variables %s occur" % (
+                cfg["p"], cfg["K"], size_arg(cfg), cfg["replace"], nseeds - 1, sorted(variables)))
+
+
 def real_rng(cfg, acc, seed):
-    for s in (0, 1, 12345, seed):
+    if not expected_error(cfg):
+        seed_range(cfg, acc)
+    for s in (12345, seed):
         try:
             r = ("ok", gen.intervention_targets(cfg["p"], cfg["K"], size_arg(cfg), replace=cfg["replace"], random_state=s))
         except Exception as e:
@@ -183,6 +219,10 @@ def replay(kind, case):
     if kind == "exec":
         r, tp = execute(case["cfg"], case["answers"], case["seed_arg"])
         return judge(case["cfg"], r)
+    if kind == "real-agg":
+        acc = Acc(keep_failures=20)
+        seed_range(case["cfg"], acc, case["nseeds"])
+        return [(f["sig"], f["msg"]) for f in acc.failures if f["kind"] == "real-agg"]
     if kind == "real":
         cfg = case["cfg"]
         try:
@@ -201,7 +241,7 @@ def describe(tier, seed):
                 "configuration every answer of every integers/choice cell (complete product when <= %d executions, else all sequences with at most "
                 "%d non-default answers - the evidence counts both kinds under stages); oracle per execution: ValueError iff tuple length != 2 or max > p or "
                 "(not replace and max*K > p), else K lists of distinct variables with admissible sizes, disjoint without replacement; across executions every "
-                "size and every variable occurs; plus 4 real-numpy seeds per configuration. non-trivial: execution with at least one non-default answer" % (
+                "size and every variable occurs (when the answer tree is complete and fully modelled); plus every real-numpy seed in [0,300) per feasible configuration (same oracle and coverage). non-trivial: execution with at least one non-default answer" % (
                     2500 if tier == "quick" else 12000, 2 if tier == "quick" else 3),
         "exhaustive": False,
         "bounds": {"p_max": 5 if tier == "thorough" else 4, "deviation_bound_when_capped": 2 if tier == "quick" else 3},
